@@ -35,6 +35,7 @@ type OblReport struct {
 	Name     string   `json:"name"`
 	Kind     string   `json:"kind"`
 	Status   string   `json:"status"` // discharged | failed | undecided | known-finding
+	CrossChecked bool `json:"cross_checked,omitempty"` // thorough tier: a second solver family agreed
 	Solver   string   `json:"solver,omitempty"`
 	Seconds  float64  `json:"seconds"`
 	Pos      string   `json:"pos,omitempty"`
@@ -242,6 +243,25 @@ func cmdCheck(args []string) int {
 		switch res.Status {
 		case "unsat":
 			rep.Status = "discharged"
+			// thorough tier: every proof is cross-checked by a solver of another family
+			// (a disagreement is an engine/solver fault and is reported, never ignored)
+			if *tier == "thorough" && ob.Kind != "cover" {
+				other := "cvc5"
+				if res.Solver == "cvc5" {
+					other = "z3-new"
+				}
+				x := solveWith(q+"(check-sat)\n", fmt.Sprintf("x%d", i), other, 30)
+				rep.Tried = append(rep.Tried, fmt.Sprintf("cross-check %s:%s:%.2fs", other, x.Status, x.Seconds))
+				switch x.Status {
+				case "unsat":
+					rep.CrossChecked = true
+				case "sat":
+					rep.Status = "failed"
+					rep.Solver = res.Solver + " vs " + other
+					w.res.Status = "disagreement"
+					w.res.Raw = "solver disagreement: " + res.Solver + " says unsat, " + other + " says sat\n" + x.Raw
+				}
+			}
 		case "sat":
 			rep.Status = "failed"
 		default:
@@ -277,6 +297,7 @@ func cmdCheck(args []string) int {
 	knownHits := 0
 	var knownNames []string
 	discharged := 0
+	crossChecked := 0
 	solverTime := map[string]float64{}
 	solverWins := map[string]int{}
 	var outLines []string
@@ -287,6 +308,9 @@ func cmdCheck(args []string) int {
 		if rep.Status == "discharged" {
 			discharged++
 			solverWins[rep.Solver]++
+			if rep.CrossChecked {
+				crossChecked++
+			}
 			continue
 		}
 		if *dumpSMT != "" {
@@ -400,6 +424,7 @@ func cmdCheck(args []string) int {
 			"obligations_total":        len(works),
 			"known_findings_hit":       knownHits,
 			"known_finding_obligations": knownNames,
+			"cross_checked_by_second_solver": crossChecked,
 			"checker_cmd":              "govc check -prop " + *prop + " -tier " + *tier,
 			"trusted_base":             trusted,
 			"functions_under_contract": funcs,
